@@ -72,10 +72,10 @@ def parse_vspec(path):
             tags = []
             name = None
             # optional numeric arg
-            mm = re.match(r"^(\d+|\*)\s*(.*)$", rest)
+            mm = re.match(r"^(\d+|\*|\?)\s*(.*)$", rest)
             if mm and kind in ("loop", "inv", "invxb", "loopensures", "loopdec", "body-start", "body-end",
                                "before", "after", "replace", "block-end", "inherit", "closure-spec", "pre-loop", "rawloop"):
-                arg = 0 if mm.group(1) == "*" else int(mm.group(1))
+                arg = 0 if mm.group(1) == "*" else (-1 if mm.group(1) == "?" else int(mm.group(1)))
                 rest = mm.group(2).strip()
             mt = re.match(r"^\[([^\]]*)\]\s*(.*)$", rest)
             if mt:
@@ -176,6 +176,10 @@ def find_anchor(toks, anchor, nth):
     for i in range(len(sigs) - len(at) + 1):
         if all(toks[sigs[i + j]].text == at[j] for j in range(len(at))):
             hits.append((sigs[i], sigs[i + len(at) - 1] + 1))
+    if nth == -1:
+        # `?`: every occurrence, possibly none (an obligation on a site that need not exist, e.g. "no internal error is
+        # raised here" after the site was removed by a repair)
+        return hits
     if nth == 0:
         if not hits:
             raise ExtractError("lost anchor `%s` (found 0)" % anchor)
@@ -404,7 +408,7 @@ def weave_function(src_fn, spec, path, W, opts, meta):
                 add(lc, semi + "\n" + c.body + "\n", ob("hint", c, {"name": "loop%d-body-end#%d[%s]" % (n, hn, ",".join(c.tags))}) if c.tags else None)
         for c in spec.of("before"):
             for hn, (a, b) in enumerate(find_anchor(toks[:body_close + 1], c.name, 1 if c.arg is None else c.arg), 1):
-                add(a, "\n" + c.body + "\n", ob("hint", c, {"name": "%s#%d[%s]" % (c.name, c.arg if c.arg else hn, ",".join(c.tags))}) if c.tags else None)
+                add(a, "\n" + c.body + "\n", ob("hint", c, {"name": "%s#%d[%s]" % (c.name, c.arg if (c.arg and c.arg > 0) else hn, ",".join(c.tags))}) if c.tags else None)
         for c in spec.of("block-end"):
             for hn, (a, b) in enumerate(find_anchor(toks[:body_close + 1], c.name, 1 if c.arg is None else c.arg), 1):
                 if toks[b - 1].text != "{":
@@ -412,13 +416,13 @@ def weave_function(src_fn, spec, path, W, opts, meta):
                 bc = match_close(toks, b - 1)
                 pk = prev_sig(toks, bc)
                 semi = "" if toks[pk].text in (";", "}", "{") else ";"
-                add(bc, semi + "\n" + c.body + "\n", ob("hint", c, {"name": "end-of:%s#%d[%s]" % (c.name, c.arg if c.arg else hn, ",".join(c.tags))}) if c.tags else None)
+                add(bc, semi + "\n" + c.body + "\n", ob("hint", c, {"name": "end-of:%s#%d[%s]" % (c.name, c.arg if (c.arg and c.arg > 0) else hn, ",".join(c.tags))}) if c.tags else None)
         for c in spec.of("closure-spec"):
             # anchor = text up to and including the closure's parameter list `|..|`; the spec goes between
             # the parameters and the body; a brace-less `match` body is wrapped in braces (ghost-neutral)
             for hn, (a, b) in enumerate(find_anchor(toks[:body_close + 1], c.name, 1 if c.arg is None else c.arg), 1):
                 nb = next_sig(toks, b - 1)
-                o = ob("closure-ensures", c, {"name": "%s#%d[%s]" % (c.name, c.arg if c.arg else hn, ",".join(c.tags))}) if c.tags else None
+                o = ob("closure-ensures", c, {"name": "%s#%d[%s]" % (c.name, c.arg if (c.arg and c.arg > 0) else hn, ",".join(c.tags))}) if c.tags else None
                 if toks[nb].text == "{":
                     add(nb, "\n" + c.body + "\n", o)
                 elif toks[nb].text == "match":
@@ -464,7 +468,7 @@ def weave_function(src_fn, spec, path, W, opts, meta):
                     deleted.add(dk)
         for c in spec.of("after"):
             for hn, (a, b) in enumerate(find_anchor(toks[:body_close + 1], c.name, 1 if c.arg is None else c.arg), 1):
-                add(b, "\n" + c.body + "\n", ob("hint", c, {"name": "%s#%d[%s]" % (c.name, c.arg if c.arg else hn, ",".join(c.tags))}) if c.tags else None)
+                add(b, "\n" + c.body + "\n", ob("hint", c, {"name": "%s#%d[%s]" % (c.name, c.arg if (c.arg and c.arg > 0) else hn, ",".join(c.tags))}) if c.tags else None)
         if opts.get("vacuity"):
             add(body_open + 1, "\n    assert(false); // VACUITY-PROBE fn-start\n",
                 {"fn": path, "kind": "vacuity", "name": "fn-start", "tags": [], "text": ""})
